@@ -5,12 +5,11 @@
    fields of the record [ext]; the executable wire functions receive them as lookup tables in the input.
    Strings are byte lists; fold-case is modelled for ASCII (strings.ToUpper/ToLower on ASCII input).
    Definitions only; proofs in proofs/CondPrimProofs.v.  Used by C17 (build totality/validation) and C18. *)
-From Coq Require Import List ZArith Bool String Ascii.
+From Coq Require Import List ZArith Bool.
 From Bfe Require Import lib.Val lib.Bytes gen.CondProtos model.CondParse.
 Import ListNotations.
 Open Scope Z_scope.
 
-Definition bs (s : string) : bytes := map (fun a => Z.of_N (N_of_ascii a)) (list_ascii_of_string s).
 
 (* ------------------------------------------------------------------ externals *)
 Record ext := {
@@ -58,7 +57,7 @@ Definition key_char (c : Z) : bool :=
 (* ------------------------------------------------------------------ arguments of a call *)
 Definition arg := (Z * bytes)%type.                       (* (kind 1=STRING 2=BOOL 3=INT, literal text) *)
 Definition arg_str (a : arg) : bytes := snd a.
-Definition TRUE_b : bytes := bs "TRUE".
+Definition TRUE_b : bytes := (* "TRUE" *) [84;82;85;69].
 Definition arg_bool (a : arg) : bool := (fst a =? 2) && bytes_eqb (to_upper (snd a)) TRUE_b.   (* BasicLit.ToBool *)
 Definition nth_arg (args : list arg) (k : Z) : arg := nth (Z.to_nat k) args (0, []).
 
@@ -107,21 +106,21 @@ Definition in_ranges (n : Z) (rs : list (Z * Z)) : bool := existsb (fun r => (fs
 Definition ctor_fold (foldc : Z) (margs : list arg) : bool :=
   if foldc =? 1 then true else if foldc =? 2 then arg_bool (last margs (0, [])) else false.
 
-Definition n_NewInMatcher := bs "NewInMatcher".
-Definition n_NewExactMatcher := bs "NewExactMatcher".
-Definition n_NewPrefixInMatcher := bs "NewPrefixInMatcher".
-Definition n_NewSuffixInMatcher := bs "NewSuffixInMatcher".
-Definition n_NewContainMatcher := bs "NewContainMatcher".
-Definition n_NewPathElementPrefixMatcher := bs "NewPathElementPrefixMatcher".
-Definition n_NewHostMatcher := bs "NewHostMatcher".
-Definition n_NewRegMatcher := bs "NewRegMatcher".
-Definition n_NewIpInMatcher := bs "NewIpInMatcher".
-Definition n_NewIPMatcher := bs "NewIPMatcher".
-Definition n_NewHashMatcher := bs "NewHashMatcher".
-Definition n_HasTagMatcher := bs "HasTagMatcher".
-Definition n_BypassMatcher := bs "BypassMatcher".
-Definition n_NewTimeMatcher := bs "NewTimeMatcher".
-Definition n_NewPeriodicTimeMatcher := bs "NewPeriodicTimeMatcher".
+Definition n_NewInMatcher := (* "NewInMatcher" *) [78;101;119;73;110;77;97;116;99;104;101;114].
+Definition n_NewExactMatcher := (* "NewExactMatcher" *) [78;101;119;69;120;97;99;116;77;97;116;99;104;101;114].
+Definition n_NewPrefixInMatcher := (* "NewPrefixInMatcher" *) [78;101;119;80;114;101;102;105;120;73;110;77;97;116;99;104;101;114].
+Definition n_NewSuffixInMatcher := (* "NewSuffixInMatcher" *) [78;101;119;83;117;102;102;105;120;73;110;77;97;116;99;104;101;114].
+Definition n_NewContainMatcher := (* "NewContainMatcher" *) [78;101;119;67;111;110;116;97;105;110;77;97;116;99;104;101;114].
+Definition n_NewPathElementPrefixMatcher := (* "NewPathElementPrefixMatcher" *) [78;101;119;80;97;116;104;69;108;101;109;101;110;116;80;114;101;102;105;120;77;97;116;99;104;101;114].
+Definition n_NewHostMatcher := (* "NewHostMatcher" *) [78;101;119;72;111;115;116;77;97;116;99;104;101;114].
+Definition n_NewRegMatcher := (* "NewRegMatcher" *) [78;101;119;82;101;103;77;97;116;99;104;101;114].
+Definition n_NewIpInMatcher := (* "NewIpInMatcher" *) [78;101;119;73;112;73;110;77;97;116;99;104;101;114].
+Definition n_NewIPMatcher := (* "NewIPMatcher" *) [78;101;119;73;80;77;97;116;99;104;101;114].
+Definition n_NewHashMatcher := (* "NewHashMatcher" *) [78;101;119;72;97;115;104;77;97;116;99;104;101;114].
+Definition n_HasTagMatcher := (* "HasTagMatcher" *) [72;97;115;84;97;103;77;97;116;99;104;101;114].
+Definition n_BypassMatcher := (* "BypassMatcher" *) [66;121;112;97;115;115;77;97;116;99;104;101;114].
+Definition n_NewTimeMatcher := (* "NewTimeMatcher" *) [78;101;119;84;105;109;101;77;97;116;99;104;101;114].
+Definition n_NewPeriodicTimeMatcher := (* "NewPeriodicTimeMatcher" *) [78;101;119;80;101;114;105;111;100;105;99;84;105;109;101;77;97;116;99;104;101;114].
 
 Definition build_matcher (x : ext) (ctor : bytes) (margs : list arg) (foldc : Z) : option matcher :=
   let a0 := arg_str (nth_arg margs 0) in
@@ -187,8 +186,8 @@ Inductive fval :=
 
 Definition v4prefix : bytes := [0;0;0;0;0;0;0;0;0;0;255;255].
 Definition to16 (raw : bytes) : option bytes :=
-  if Nat.eqb (List.length raw) 4 then Some (v4prefix ++ raw)
-  else if Nat.eqb (List.length raw) 16 then Some raw else None.
+  if Nat.eqb (length raw) 4 then Some (v4prefix ++ raw)
+  else if Nat.eqb (length raw) 16 then Some raw else None.
 
 Definition match_val (x : ext) (m : matcher) (v : fval) : bool :=
   match m, v with
@@ -248,35 +247,35 @@ Definition header_get (k : bytes) (h : alist (list bytes)) : bytes := hget (cano
 Definition nonempty (s : bytes) : bool := match s with [] => false | _ => true end.
 Definition ok_tls (r : request) : option tls_state := if r_secure r then r_tls r else None.
 
-Definition n_HostFetcher := bs "HostFetcher".
-Definition n_HostTagFetcher := bs "HostTagFetcher".
-Definition n_ProtoFetcher := bs "ProtoFetcher".
-Definition n_MethodFetcher := bs "MethodFetcher".
-Definition n_PortFetcher := bs "PortFetcher".
-Definition n_TagFetcher := bs "TagFetcher".
-Definition n_UrlFetcher := bs "UrlFetcher".
-Definition n_PathFetcher := bs "PathFetcher".
-Definition n_QueryKeyInFetcher := bs "QueryKeyInFetcher".
-Definition n_QueryKeyPrefixInFetcher := bs "QueryKeyPrefixInFetcher".
-Definition n_QueryValueFetcher := bs "QueryValueFetcher".
-Definition n_CookieKeyInFetcher := bs "CookieKeyInFetcher".
-Definition n_CookieValueFetcher := bs "CookieValueFetcher".
-Definition n_HeaderKeyInFetcher := bs "HeaderKeyInFetcher".
-Definition n_HeaderValueFetcher := bs "HeaderValueFetcher".
-Definition n_UAFetcher := bs "UAFetcher".
-Definition n_ResHeaderKeyInFetcher := bs "ResHeaderKeyInFetcher".
-Definition n_ResHeaderValueFetcher := bs "ResHeaderValueFetcher".
-Definition n_ResCodeFetcher := bs "ResCodeFetcher".
-Definition n_CIPFetcher := bs "CIPFetcher".
-Definition n_SIPFetcher := bs "SIPFetcher".
-Definition n_VIPFetcher := bs "VIPFetcher".
-Definition n_SniFetcher := bs "SniFetcher".
-Definition n_ClientCANameFetcher := bs "ClientCANameFetcher".
-Definition n_ContextValueFetcher := bs "ContextValueFetcher".
-Definition n_BfeTimeFetcher := bs "BfeTimeFetcher".
-Definition n_DebugTime := bs "X-Bfe-Debug-Time".
-Definition n_UserAgent := bs "User-Agent".
-Definition n_80 := bs "80".
+Definition n_HostFetcher := (* "HostFetcher" *) [72;111;115;116;70;101;116;99;104;101;114].
+Definition n_HostTagFetcher := (* "HostTagFetcher" *) [72;111;115;116;84;97;103;70;101;116;99;104;101;114].
+Definition n_ProtoFetcher := (* "ProtoFetcher" *) [80;114;111;116;111;70;101;116;99;104;101;114].
+Definition n_MethodFetcher := (* "MethodFetcher" *) [77;101;116;104;111;100;70;101;116;99;104;101;114].
+Definition n_PortFetcher := (* "PortFetcher" *) [80;111;114;116;70;101;116;99;104;101;114].
+Definition n_TagFetcher := (* "TagFetcher" *) [84;97;103;70;101;116;99;104;101;114].
+Definition n_UrlFetcher := (* "UrlFetcher" *) [85;114;108;70;101;116;99;104;101;114].
+Definition n_PathFetcher := (* "PathFetcher" *) [80;97;116;104;70;101;116;99;104;101;114].
+Definition n_QueryKeyInFetcher := (* "QueryKeyInFetcher" *) [81;117;101;114;121;75;101;121;73;110;70;101;116;99;104;101;114].
+Definition n_QueryKeyPrefixInFetcher := (* "QueryKeyPrefixInFetcher" *) [81;117;101;114;121;75;101;121;80;114;101;102;105;120;73;110;70;101;116;99;104;101;114].
+Definition n_QueryValueFetcher := (* "QueryValueFetcher" *) [81;117;101;114;121;86;97;108;117;101;70;101;116;99;104;101;114].
+Definition n_CookieKeyInFetcher := (* "CookieKeyInFetcher" *) [67;111;111;107;105;101;75;101;121;73;110;70;101;116;99;104;101;114].
+Definition n_CookieValueFetcher := (* "CookieValueFetcher" *) [67;111;111;107;105;101;86;97;108;117;101;70;101;116;99;104;101;114].
+Definition n_HeaderKeyInFetcher := (* "HeaderKeyInFetcher" *) [72;101;97;100;101;114;75;101;121;73;110;70;101;116;99;104;101;114].
+Definition n_HeaderValueFetcher := (* "HeaderValueFetcher" *) [72;101;97;100;101;114;86;97;108;117;101;70;101;116;99;104;101;114].
+Definition n_UAFetcher := (* "UAFetcher" *) [85;65;70;101;116;99;104;101;114].
+Definition n_ResHeaderKeyInFetcher := (* "ResHeaderKeyInFetcher" *) [82;101;115;72;101;97;100;101;114;75;101;121;73;110;70;101;116;99;104;101;114].
+Definition n_ResHeaderValueFetcher := (* "ResHeaderValueFetcher" *) [82;101;115;72;101;97;100;101;114;86;97;108;117;101;70;101;116;99;104;101;114].
+Definition n_ResCodeFetcher := (* "ResCodeFetcher" *) [82;101;115;67;111;100;101;70;101;116;99;104;101;114].
+Definition n_CIPFetcher := (* "CIPFetcher" *) [67;73;80;70;101;116;99;104;101;114].
+Definition n_SIPFetcher := (* "SIPFetcher" *) [83;73;80;70;101;116;99;104;101;114].
+Definition n_VIPFetcher := (* "VIPFetcher" *) [86;73;80;70;101;116;99;104;101;114].
+Definition n_SniFetcher := (* "SniFetcher" *) [83;110;105;70;101;116;99;104;101;114].
+Definition n_ClientCANameFetcher := (* "ClientCANameFetcher" *) [67;108;105;101;110;116;67;65;78;97;109;101;70;101;116;99;104;101;114].
+Definition n_ContextValueFetcher := (* "ContextValueFetcher" *) [67;111;110;116;101;120;116;86;97;108;117;101;70;101;116;99;104;101;114].
+Definition n_BfeTimeFetcher := (* "BfeTimeFetcher" *) [66;102;101;84;105;109;101;70;101;116;99;104;101;114].
+Definition n_DebugTime := (* "X-Bfe-Debug-Time" *) [88;45;66;102;101;45;68;101;98;117;103;45;84;105;109;101].
+Definition n_UserAgent := (* "User-Agent" *) [85;115;101;114;45;65;103;101;110;116].
+Definition n_80 := (* "80" *) [56;48].
 
 Definition opt_ip (o : option bytes) : fval := match o with Some ip => FIp ip | None => FErr end.
 
@@ -347,12 +346,12 @@ Definition fetch (x : ext) (fetcher : bytes) (key : bytes) (r : request) : fval 
   else FErr.
 
 (* conditions that are not PrimitiveCond: the "fetcher" column holds the condition type *)
-Definition n_DefaultTrueCond := bs "DefaultTrueCond".
-Definition n_TrustedCIpMatcher := bs "TrustedCIpMatcher".
-Definition n_SecureProtoMatcher := bs "SecureProtoMatcher".
-Definition n_QueryExistMatcher := bs "QueryExistMatcher".
-Definition n_ClientAuthMatcher := bs "ClientAuthMatcher".
-Definition n_none := bs "-".
+Definition n_DefaultTrueCond := (* "DefaultTrueCond" *) [68;101;102;97;117;108;116;84;114;117;101;67;111;110;100].
+Definition n_TrustedCIpMatcher := (* "TrustedCIpMatcher" *) [84;114;117;115;116;101;100;67;73;112;77;97;116;99;104;101;114].
+Definition n_SecureProtoMatcher := (* "SecureProtoMatcher" *) [83;101;99;117;114;101;80;114;111;116;111;77;97;116;99;104;101;114].
+Definition n_QueryExistMatcher := (* "QueryExistMatcher" *) [81;117;101;114;121;69;120;105;115;116;77;97;116;99;104;101;114].
+Definition n_ClientAuthMatcher := (* "ClientAuthMatcher" *) [67;108;105;101;110;116;65;117;116;104;77;97;116;99;104;101;114].
+Definition n_none := (* "-" *) [45].
 Definition direct_match (ty : bytes) (r : request) : bool :=
   if bytes_eqb ty n_DefaultTrueCond then true
   else if bytes_eqb ty n_TrustedCIpMatcher then r_trusted r
@@ -470,43 +469,43 @@ Definition b2 (args : list arg) : bool := arg_bool (nth_arg args 2).
 Definition K {A B} (v : A) (_ : B) : A := v.
 
 Definition string_specs : list (bytes * sspec) := [
-  (bs "req_host_in",                SS (K AHost) 0 (K (TIn true)));
-  (bs "req_host_tag_in",            SS (K AHostTag) 0 (K (TIn true)));
-  (bs "req_host_regmatch",          SS (K AHost) 0 (K TRegex));
-  (bs "req_host_suffix_in",         SS (K AHost) 0 (K (TSuffix true)));
-  (bs "req_proto_match",            SS (K AProto) 0 (K (TExact true)));
-  (bs "req_method_in",              SS (K AMethod) 0 (K (TIn true)));
-  (bs "req_port_in",                SS (K APort) 0 (K (TIn false)));
-  (bs "req_path_in",                SS (K APath) 0 (fun a => TIn (b1 a)));
-  (bs "req_path_prefix_in",         SS (K APath) 0 (fun a => TPrefix (b1 a)));
-  (bs "req_path_suffix_in",         SS (K APath) 0 (fun a => TSuffix (b1 a)));
-  (bs "req_path_contain",           SS (K APath) 0 (fun a => TContain (b1 a)));
-  (bs "req_path_element_prefix_in", SS (K APath) 0 (fun a => TPathElem (b1 a)));
-  (bs "req_path_regmatch",          SS (K APath) 0 (K TRegex));
-  (bs "req_url_regmatch",           SS (K AUrl) 0 (K TRegex));
-  (bs "req_ua_regmatch",            SS (K AUA) 0 (K TRegex));
-  (bs "req_query_value_in",         SS (fun a => AQuery (a0 a)) 1 (fun a => TIn (b2 a)));
-  (bs "req_query_value_prefix_in",  SS (fun a => AQuery (a0 a)) 1 (fun a => TPrefix (b2 a)));
-  (bs "req_query_value_suffix_in",  SS (fun a => AQuery (a0 a)) 1 (fun a => TSuffix (b2 a)));
-  (bs "req_query_value_contain",    SS (fun a => AQuery (a0 a)) 1 (fun a => TContain (b2 a)));
-  (bs "req_query_value_regmatch",   SS (fun a => AQuery (a0 a)) 1 (K TRegex));
-  (bs "req_query_value_hash_in",    SS (fun a => AQuery (a0 a)) 1 (fun a => THash (b2 a)));
-  (bs "req_cookie_value_in",        SS (fun a => ACookie (a0 a)) 1 (fun a => TIn (b2 a)));
-  (bs "req_cookie_value_prefix_in", SS (fun a => ACookie (a0 a)) 1 (fun a => TPrefix (b2 a)));
-  (bs "req_cookie_value_suffix_in", SS (fun a => ACookie (a0 a)) 1 (fun a => TSuffix (b2 a)));
-  (bs "req_cookie_value_contain",   SS (fun a => ACookie (a0 a)) 1 (fun a => TContain (b2 a)));
-  (bs "req_cookie_value_hash_in",   SS (fun a => ACookie (a0 a)) 1 (fun a => THash (b2 a)));
-  (bs "req_header_value_in",        SS (fun a => AHeader (a0 a)) 1 (fun a => TIn (b2 a)));
-  (bs "req_header_value_prefix_in", SS (fun a => AHeader (a0 a)) 1 (fun a => TPrefix (b2 a)));
-  (bs "req_header_value_suffix_in", SS (fun a => AHeader (a0 a)) 1 (fun a => TSuffix (b2 a)));
-  (bs "req_header_value_contain",   SS (fun a => AHeader (a0 a)) 1 (fun a => TContain (b2 a)));
-  (bs "req_header_value_regmatch",  SS (fun a => AHeader (a0 a)) 1 (K TRegex));
-  (bs "req_header_value_hash_in",   SS (fun a => AHeader (a0 a)) 1 (fun a => THash (b2 a)));
-  (bs "res_code_in",                SS (K AResCode) 0 (K (TIn false)));
-  (bs "res_header_value_in",        SS (fun a => AResHeader (a0 a)) 1 (fun a => TIn (b2 a)));
-  (bs "ses_tls_sni_in",             SS (K ASni) 0 (K (TIn true)));
-  (bs "ses_tls_client_ca_in",       SS (K AClientCA) 0 (K (TIn false)));
-  (bs "req_context_value_in",       SS (fun a => AContext (a0 a)) 1 (fun a => TIn (b2 a)))
+  ((* "req_host_in" *) [114;101;113;95;104;111;115;116;95;105;110],                SS (K AHost) 0 (K (TIn true)));
+  ((* "req_host_tag_in" *) [114;101;113;95;104;111;115;116;95;116;97;103;95;105;110],            SS (K AHostTag) 0 (K (TIn true)));
+  ((* "req_host_regmatch" *) [114;101;113;95;104;111;115;116;95;114;101;103;109;97;116;99;104],          SS (K AHost) 0 (K TRegex));
+  ((* "req_host_suffix_in" *) [114;101;113;95;104;111;115;116;95;115;117;102;102;105;120;95;105;110],         SS (K AHost) 0 (K (TSuffix true)));
+  ((* "req_proto_match" *) [114;101;113;95;112;114;111;116;111;95;109;97;116;99;104],            SS (K AProto) 0 (K (TExact true)));
+  ((* "req_method_in" *) [114;101;113;95;109;101;116;104;111;100;95;105;110],              SS (K AMethod) 0 (K (TIn true)));
+  ((* "req_port_in" *) [114;101;113;95;112;111;114;116;95;105;110],                SS (K APort) 0 (K (TIn false)));
+  ((* "req_path_in" *) [114;101;113;95;112;97;116;104;95;105;110],                SS (K APath) 0 (fun a => TIn (b1 a)));
+  ((* "req_path_prefix_in" *) [114;101;113;95;112;97;116;104;95;112;114;101;102;105;120;95;105;110],         SS (K APath) 0 (fun a => TPrefix (b1 a)));
+  ((* "req_path_suffix_in" *) [114;101;113;95;112;97;116;104;95;115;117;102;102;105;120;95;105;110],         SS (K APath) 0 (fun a => TSuffix (b1 a)));
+  ((* "req_path_contain" *) [114;101;113;95;112;97;116;104;95;99;111;110;116;97;105;110],           SS (K APath) 0 (fun a => TContain (b1 a)));
+  ((* "req_path_element_prefix_in" *) [114;101;113;95;112;97;116;104;95;101;108;101;109;101;110;116;95;112;114;101;102;105;120;95;105;110], SS (K APath) 0 (fun a => TPathElem (b1 a)));
+  ((* "req_path_regmatch" *) [114;101;113;95;112;97;116;104;95;114;101;103;109;97;116;99;104],          SS (K APath) 0 (K TRegex));
+  ((* "req_url_regmatch" *) [114;101;113;95;117;114;108;95;114;101;103;109;97;116;99;104],           SS (K AUrl) 0 (K TRegex));
+  ((* "req_ua_regmatch" *) [114;101;113;95;117;97;95;114;101;103;109;97;116;99;104],            SS (K AUA) 0 (K TRegex));
+  ((* "req_query_value_in" *) [114;101;113;95;113;117;101;114;121;95;118;97;108;117;101;95;105;110],         SS (fun a => AQuery (a0 a)) 1 (fun a => TIn (b2 a)));
+  ((* "req_query_value_prefix_in" *) [114;101;113;95;113;117;101;114;121;95;118;97;108;117;101;95;112;114;101;102;105;120;95;105;110],  SS (fun a => AQuery (a0 a)) 1 (fun a => TPrefix (b2 a)));
+  ((* "req_query_value_suffix_in" *) [114;101;113;95;113;117;101;114;121;95;118;97;108;117;101;95;115;117;102;102;105;120;95;105;110],  SS (fun a => AQuery (a0 a)) 1 (fun a => TSuffix (b2 a)));
+  ((* "req_query_value_contain" *) [114;101;113;95;113;117;101;114;121;95;118;97;108;117;101;95;99;111;110;116;97;105;110],    SS (fun a => AQuery (a0 a)) 1 (fun a => TContain (b2 a)));
+  ((* "req_query_value_regmatch" *) [114;101;113;95;113;117;101;114;121;95;118;97;108;117;101;95;114;101;103;109;97;116;99;104],   SS (fun a => AQuery (a0 a)) 1 (K TRegex));
+  ((* "req_query_value_hash_in" *) [114;101;113;95;113;117;101;114;121;95;118;97;108;117;101;95;104;97;115;104;95;105;110],    SS (fun a => AQuery (a0 a)) 1 (fun a => THash (b2 a)));
+  ((* "req_cookie_value_in" *) [114;101;113;95;99;111;111;107;105;101;95;118;97;108;117;101;95;105;110],        SS (fun a => ACookie (a0 a)) 1 (fun a => TIn (b2 a)));
+  ((* "req_cookie_value_prefix_in" *) [114;101;113;95;99;111;111;107;105;101;95;118;97;108;117;101;95;112;114;101;102;105;120;95;105;110], SS (fun a => ACookie (a0 a)) 1 (fun a => TPrefix (b2 a)));
+  ((* "req_cookie_value_suffix_in" *) [114;101;113;95;99;111;111;107;105;101;95;118;97;108;117;101;95;115;117;102;102;105;120;95;105;110], SS (fun a => ACookie (a0 a)) 1 (fun a => TSuffix (b2 a)));
+  ((* "req_cookie_value_contain" *) [114;101;113;95;99;111;111;107;105;101;95;118;97;108;117;101;95;99;111;110;116;97;105;110],   SS (fun a => ACookie (a0 a)) 1 (fun a => TContain (b2 a)));
+  ((* "req_cookie_value_hash_in" *) [114;101;113;95;99;111;111;107;105;101;95;118;97;108;117;101;95;104;97;115;104;95;105;110],   SS (fun a => ACookie (a0 a)) 1 (fun a => THash (b2 a)));
+  ((* "req_header_value_in" *) [114;101;113;95;104;101;97;100;101;114;95;118;97;108;117;101;95;105;110],        SS (fun a => AHeader (a0 a)) 1 (fun a => TIn (b2 a)));
+  ((* "req_header_value_prefix_in" *) [114;101;113;95;104;101;97;100;101;114;95;118;97;108;117;101;95;112;114;101;102;105;120;95;105;110], SS (fun a => AHeader (a0 a)) 1 (fun a => TPrefix (b2 a)));
+  ((* "req_header_value_suffix_in" *) [114;101;113;95;104;101;97;100;101;114;95;118;97;108;117;101;95;115;117;102;102;105;120;95;105;110], SS (fun a => AHeader (a0 a)) 1 (fun a => TSuffix (b2 a)));
+  ((* "req_header_value_contain" *) [114;101;113;95;104;101;97;100;101;114;95;118;97;108;117;101;95;99;111;110;116;97;105;110],   SS (fun a => AHeader (a0 a)) 1 (fun a => TContain (b2 a)));
+  ((* "req_header_value_regmatch" *) [114;101;113;95;104;101;97;100;101;114;95;118;97;108;117;101;95;114;101;103;109;97;116;99;104],  SS (fun a => AHeader (a0 a)) 1 (K TRegex));
+  ((* "req_header_value_hash_in" *) [114;101;113;95;104;101;97;100;101;114;95;118;97;108;117;101;95;104;97;115;104;95;105;110],   SS (fun a => AHeader (a0 a)) 1 (fun a => THash (b2 a)));
+  ((* "res_code_in" *) [114;101;115;95;99;111;100;101;95;105;110],                SS (K AResCode) 0 (K (TIn false)));
+  ((* "res_header_value_in" *) [114;101;115;95;104;101;97;100;101;114;95;118;97;108;117;101;95;105;110],        SS (fun a => AResHeader (a0 a)) 1 (fun a => TIn (b2 a)));
+  ((* "ses_tls_sni_in" *) [115;101;115;95;116;108;115;95;115;110;105;95;105;110],             SS (K ASni) 0 (K (TIn true)));
+  ((* "ses_tls_client_ca_in" *) [115;101;115;95;116;108;115;95;99;108;105;101;110;116;95;99;97;95;105;110],       SS (K AClientCA) 0 (K (TIn false)));
+  ((* "req_context_value_in" *) [114;101;113;95;99;111;110;116;101;120;116;95;118;97;108;117;101;95;105;110],       SS (fun a => AContext (a0 a)) 1 (fun a => TIn (b2 a)))
 ].
 
 (* the other documented primitives *)
@@ -524,17 +523,17 @@ Definition header_key_in (keys : bytes) (h : alist (list bytes)) : bool :=
 Definition spec_other (x : ext) (name : bytes) (args : list arg) (r : request) : option bool :=
   let s0 := arg_str (nth_arg args 0) in
   let s1 := arg_str (nth_arg args 1) in
-  if bytes_eqb name (bs "default_t") then Some true
-  else if bytes_eqb name (bs "req_cip_trusted") then Some (r_trusted r)
-  else if bytes_eqb name (bs "req_proto_secure") then Some (r_secure r)
-  else if bytes_eqb name (bs "req_query_exist") then Some (negb (Nat.eqb (List.length (r_query r)) 0))
-  else if bytes_eqb name (bs "ses_tls_client_auth") then
+  if bytes_eqb name ((* "default_t" *) [100;101;102;97;117;108;116;95;116]) then Some true
+  else if bytes_eqb name ((* "req_cip_trusted" *) [114;101;113;95;99;105;112;95;116;114;117;115;116;101;100]) then Some (r_trusted r)
+  else if bytes_eqb name ((* "req_proto_secure" *) [114;101;113;95;112;114;111;116;111;95;115;101;99;117;114;101]) then Some (r_secure r)
+  else if bytes_eqb name ((* "req_query_exist" *) [114;101;113;95;113;117;101;114;121;95;101;120;105;115;116]) then Some (negb (Nat.eqb (length (r_query r)) 0))
+  else if bytes_eqb name ((* "ses_tls_client_auth" *) [115;101;115;95;116;108;115;95;99;108;105;101;110;116;95;97;117;116;104]) then
     Some (match ok_tls r with Some t => t_client_auth t | None => false end)
-  else if bytes_eqb name (bs "req_cip_range") then Some (ip_in_range x s0 s1 (r_cip r))
-  else if bytes_eqb name (bs "req_vip_range") then Some (ip_in_range x s0 s1 (r_vip r))
-  else if bytes_eqb name (bs "ses_vip_range") then Some (ip_in_range x s0 s1 (r_vip r))
-  else if bytes_eqb name (bs "ses_sip_range") then Some (ip_in_range x s0 s1 (r_sip r))
-  else if bytes_eqb name (bs "req_vip_in") then
+  else if bytes_eqb name ((* "req_cip_range" *) [114;101;113;95;99;105;112;95;114;97;110;103;101]) then Some (ip_in_range x s0 s1 (r_cip r))
+  else if bytes_eqb name ((* "req_vip_range" *) [114;101;113;95;118;105;112;95;114;97;110;103;101]) then Some (ip_in_range x s0 s1 (r_vip r))
+  else if bytes_eqb name ((* "ses_vip_range" *) [115;101;115;95;118;105;112;95;114;97;110;103;101]) then Some (ip_in_range x s0 s1 (r_vip r))
+  else if bytes_eqb name ((* "ses_sip_range" *) [115;101;115;95;115;105;112;95;114;97;110;103;101]) then Some (ip_in_range x s0 s1 (r_sip r))
+  else if bytes_eqb name ((* "req_vip_in" *) [114;101;113;95;118;105;112;95;105;110]) then
     Some (match r_vip r with
           | Some ip => match to16 ip with
                        | Some ip16 => existsb (fun p => match x_ip x p with Some (q, _) => bytes_eqb q ip16 | None => false end)
@@ -543,19 +542,19 @@ Definition spec_other (x : ext) (name : bytes) (args : list arg) (r : request) :
                        end
           | None => false
           end)
-  else if bytes_eqb name (bs "req_cip_hash_in") then
+  else if bytes_eqb name ((* "req_cip_hash_in" *) [114;101;113;95;99;105;112;95;104;97;115;104;95;105;110]) then
     Some (match r_cip r, all_some (map hash_section (split_bar s0)) with
           | Some ip, Some rs => in_ranges (x_hash x (x_ipstr x ip)) rs
           | _, _ => false
           end)
-  else if bytes_eqb name (bs "req_query_key_in") then Some (key_list_has s0 (r_query r))
-  else if bytes_eqb name (bs "req_query_key_prefix_in") then
+  else if bytes_eqb name ((* "req_query_key_in" *) [114;101;113;95;113;117;101;114;121;95;107;101;121;95;105;110]) then Some (key_list_has s0 (r_query r))
+  else if bytes_eqb name ((* "req_query_key_prefix_in" *) [114;101;113;95;113;117;101;114;121;95;107;101;121;95;112;114;101;102;105;120;95;105;110]) then
     Some (existsb (fun kv => existsb (fun p => is_prefix p (fst kv)) (split_bar s0)) (r_query r))
-  else if bytes_eqb name (bs "req_cookie_key_in") then Some (key_list_has s0 (r_cookies r))
-  else if bytes_eqb name (bs "req_header_key_in") then Some (header_key_in s0 (r_headers r))
-  else if bytes_eqb name (bs "res_header_key_in") then
+  else if bytes_eqb name ((* "req_cookie_key_in" *) [114;101;113;95;99;111;111;107;105;101;95;107;101;121;95;105;110]) then Some (key_list_has s0 (r_cookies r))
+  else if bytes_eqb name ((* "req_header_key_in" *) [114;101;113;95;104;101;97;100;101;114;95;107;101;121;95;105;110]) then Some (header_key_in s0 (r_headers r))
+  else if bytes_eqb name ((* "res_header_key_in" *) [114;101;115;95;104;101;97;100;101;114;95;107;101;121;95;105;110]) then
     Some (match r_resp r with Some (_, h) => header_key_in s0 h | None => false end)
-  else if bytes_eqb name (bs "req_tag_match") then
+  else if bytes_eqb name ((* "req_tag_match" *) [114;101;113;95;116;97;103;95;109;97;116;99;104]) then
     Some (match r_tags r with
           | Some tbl => match aget s0 tbl with
                         | Some l => existsb (fun t => bytes_eqb (before_colon t) s1) l
@@ -563,12 +562,12 @@ Definition spec_other (x : ext) (name : bytes) (args : list arg) (r : request) :
                         end
           | None => false
           end)
-  else if bytes_eqb name (bs "bfe_time_range") then
+  else if bytes_eqb name ((* "bfe_time_range" *) [98;102;101;95;116;105;109;101;95;114;97;110;103;101]) then
     Some (match x_time x (hget n_DebugTime (r_headers r)), x_time x s0, x_time x s1 with
           | Some t, Some s, Some e => (s <=? t) && (t <=? e)
           | _, _, _ => false
           end)
-  else if bytes_eqb name (bs "bfe_periodic_time_range") then
+  else if bytes_eqb name ((* "bfe_periodic_time_range" *) [98;102;101;95;112;101;114;105;111;100;105;99;95;116;105;109;101;95;114;97;110;103;101]) then
     Some (match x_time x (hget n_DebugTime (r_headers r)), x_tod x s0, x_tod x s1 with
           | Some t, Some (s, off), Some (e, _) => let secs := (t + off) mod 86400 in (s <=? secs) && (secs <=? e)
           | _, _, _ => false
